@@ -773,3 +773,62 @@ def rule_dedup_truth_up(db: ProgramDB) -> List[Instance]:
                                        "side out of the key although the conjunction can still fail, and the row the other side needs is suppressed "
                                        "as a duplicate (the result depends on the order of a domain)"), line=c.lineno))
     return out
+
+
+# ---------------------------------------------------------------------------------- KEY-FILTER-KEEPS
+def rule_key_filter_keeps(db: ProgramDB) -> List[Instance]:
+    """Several places compute 'the variables that identify a row' by filtering `_unique_variables_` (cache keys, the
+    variables an or_ compares, what a conclusion was drawn for, the for_all intersection key).  Such a filter may drop literal
+    pseudo-variables (and, for for_all, predicate results); it must keep plain variables AND one-to-many mappings (a flattened
+    expression takes several values under one binding of its variables, so it identifies a row like a variable does)."""
+    from ..boolexpr import eval_bool
+    out = []
+    n = 0
+    for fn in db.all_functions():
+        if fn.module not in ("symbolic", "conclusion_selector"):
+            continue
+        for x in own_nodes(fn.node):
+            lam = None
+            if isinstance(x, ast.Call) and call_attr(x) == "filter" and x.args and isinstance(x.args[0], ast.Lambda) \
+                    and "_unique_variables_" in unparse(x.func.value):
+                lam = (x.args[0].args.args[0].arg, [x.args[0].body], x)
+            elif isinstance(x, (ast.ListComp, ast.GeneratorExp, ast.SetComp)) and x.generators and "_unique_variables_" in unparse(x.generators[0].iter) \
+                    and isinstance(x.generators[0].target, ast.Name) and x.generators[0].ifs:
+                lam = (x.generators[0].target.id, list(x.generators[0].ifs), x)
+            if lam is None:
+                continue
+            var, tests, node = lam
+
+            def atom(e, var=var):
+                if isinstance(e, ast.Call) and dotted(e.func) == "isinstance" and len(e.args) == 2:
+                    cls_txt = unparse(e.args[1])
+                    on_payload = unparse(e.args[0]) == f"{var}.value"
+                    if not on_payload:
+                        return "WRAPPER"          # tests the HashedValue wrapper itself: never an expression class
+                    if cls_txt.endswith("Literal"):
+                        return "LIT"
+                    if cls_txt.endswith("Variable"):
+                        return "VAR"
+                    if cls_txt.endswith("Flatten") or cls_txt.endswith("DomainMapping"):
+                        return "MAP"
+                    return "OTHERCLS:" + cls_txt
+                if isinstance(e, (ast.Call, ast.Attribute)) and "_predicate_type_" in unparse(e):
+                    return "PRED"
+                return None
+            kinds = {"plain variable": {"LIT": False, "VAR": True, "MAP": False, "PRED": False, "WRAPPER": False},
+                     "flattened expression": {"LIT": False, "VAR": False, "MAP": True, "PRED": False, "WRAPPER": False}}
+            n += 1
+            for kind, env in kinds.items():
+                try:
+                    kept = all(bool(eval_bool(t, atom, env)) for t in tests)
+                except (AnalysisError, KeyError) as e:
+                    out.append(inst("KEY-FILTER-KEEPS", UNDECIDED, fn, f"{fn.short}[{unparse(node)[:40]}: {kind}]", f"filter not decidable: {e}", line=node.lineno))
+                    continue
+                out.append(inst("KEY-FILTER-KEEPS", HOLDS if kept else VIOLATION, fn, f"{fn.short}[{unparse(node)[:40]}: {kind}]",
+                                f"a {kind} stays part of the key" if kept else
+                                f"`{unparse(node)[:80]}` drops a {kind} from the variables that identify a row: two rows that differ only there "
+                                f"(two elements of one flattened collection) are one key - the second gets no conclusion / is served the first "
+                                f"one's cached row / is suppressed as a duplicate", line=node.lineno))
+    if n == 0:
+        raise AnalysisError("no filter over _unique_variables_ found")
+    return out
